@@ -35,7 +35,7 @@ CHECKS = {
     ),
     "C04": (
         "fault_enumeration",
-        "Every sequence of well-formed frames of length L (quick 2, thorough 3) over a 42-symbol alphabet covering all "
+        "Every sequence of well-formed frames of length L (quick 2, thorough 3) over a 43-symbol alphabet (42 frames + the host's own reset request, which must not move the receiver state) covering all "
         "frame numbers, both reTx values, ACK/NAK/RST and RSTACK/ERROR with defined and undefined codes, from each of the "
         "8 reachable expected-number states, plus Hypothesis-generated sequences of 50-400 frames that wrap the counter "
         "dozens of times; after each frame the upward calls and the frames written are compared with an 8-state model "
